@@ -63,7 +63,8 @@ func c20Stream(tmpl string) []byte {
 	if err := lib.StoreKnowledgeBaseToWriter(w, "T", "1"); err != nil {
 		panic(err)
 	}
-	return w.buf
+	// the stream's layout depends on map iteration order natively: pin it to the path
+	return verif.Pin("stream", w.buf)
 }
 
 // count8 counts the 8-byte reads of a healthy load (concrete).
@@ -99,6 +100,65 @@ func VerifC20Field(tmpl string, lo, hi int) {
 	verif.Assert("C20:grb-loader-no-panic-escapes", !pan)
 	verif.Assert("C20:grb-loader-returns-a-result-or-an-error", (kb != nil) != (err != nil))
 	verif.Event("field", k, err != nil)
+}
+
+// ---------------------------------------------------------------- nested fields: the head of every longer read
+//
+// Some fields are not read from the stream directly but decoded later out of a byte blob (the payload of a string constant
+// carries its own 8-byte length prefix, for one). c20BlobReader replaces the FIRST 8 bytes of the k-th read of 9 or more
+// bytes (AST ids - 36 bytes, used as map keys - excepted) by symbolic bytes.
+type c20BlobReader struct {
+	data []byte
+	pos  int
+	nb   int
+	k    int
+	sym  []byte
+	hit  bool
+	size int
+}
+
+func (r *c20BlobReader) Read(p []byte) (int, error) {
+	if len(p) == 0 {
+		return 0, nil
+	}
+	if r.pos >= len(r.data) {
+		return 0, io.EOF
+	}
+	n := len(p)
+	if r.pos+n > len(r.data) {
+		n = len(r.data) - r.pos
+	}
+	copy(p, r.data[r.pos:r.pos+n])
+	r.pos += n
+	if n >= 9 && n != 36 {
+		if r.nb == r.k {
+			copy(p, r.sym)
+			r.hit = true
+			r.size = n
+		}
+		r.nb++
+	}
+	return n, nil
+}
+
+func VerifC20Blob(tmpl string) {
+	data := c20Stream(tmpl)
+	r0 := &c20BlobReader{data: data, k: -1}
+	lib0 := ast.NewKnowledgeLibrary()
+	_, _ = lib0.LoadKnowledgeBaseFromReader(r0, true)
+	k := verif.Choice("blob", r0.nb)
+	r := &c20BlobReader{data: data, k: k, sym: verif.Bytes("blob-head", 8)}
+	verif.SetAllocPolicy(4*len(data)+128*1024, 0, 1)
+	verif.LimitIsViolation("C20:grb-loader-terminates-within-budget")
+	lib := ast.NewKnowledgeLibrary()
+	kb, err, pan := loadKB(r, true, lib)
+	verif.Reach("c20:blob-load-returned")
+	if r.hit {
+		verif.Reach("c20:blob-head-mutated")
+	}
+	verif.Assert("C20:grb-loader-no-panic-escapes", !pan)
+	verif.Assert("C20:grb-loader-returns-a-result-or-an-error", (kb != nil) != (err != nil))
+	verif.Event("blob", k, r.size, err != nil)
 }
 
 // ---------------------------------------------------------------- structure-aware splicing: a node that names itself as its child
